@@ -203,6 +203,7 @@ package server
 //@   ensures [C17:tag_tokens_in_order] forall i int, j int :: {result[i]; result[j]} 0 <= i && i < j && j < len(result) ==> result[i].col + result[i].length <= result[j].col && result[i].col <= result[j].col
 //@   ensures [C17:tag_tokens_inside_comment] forall i int :: {result[i]} 0 <= i && i < len(result) ==> result[i].line == tok.Pos.Line - 1 && tok.Pos.Column <= result[i].col && result[i].col + result[i].length <= tok.Pos.Column + len(tok.Value)
 //@   loop 1 invariant 0 - 1 <= rangeindex && 0 <= searchStart && searchStart <= len(commentText) && commentText == tok.Value && (fresh(tokens) || len(tokens) == 0)
+//@   loop 1 invariant partStart == splitoff(commentText, ",", rangeindex + 1) && searchStart <= partStart
 //@   loop 1 invariant forall i int :: 0 <= i && i < len(tokens) ==> tokens[i].tokenType <= 12
 //@   loop 1 invariant forall i int :: {tokens[i]} 0 <= i && i < len(tokens) ==> tokens[i].tokenType == 5 || tokens[i].tokenType == 12
 //@   loop 1 invariant baseCol == tok.Pos.Column - 1 && baseLine == tok.Pos.Line - 1
